@@ -107,7 +107,11 @@ type input struct {
 func Inputs(s *rs.Schema, t *rs.Type, quick bool) []input {
 	var out []input
 	seen := map[string]bool{}
+	complexKeys := s.ComplexKeys(t)
 	add := func(repr bool, v ref.Val, mut string) {
+		if !repr && complexKeys {
+			return // type-level feeding of struct-keyed maps is outside the enumerated space (rs.ComplexKeys)
+		}
 		k := fmt.Sprint(repr) + v.Key()
 		if seen[k] {
 			return
